@@ -141,7 +141,7 @@ type injWitness struct {
 func init() {
 	core.Register(&core.Prop{
 		ID: "C06",
-		Rule: "seeded generator of valid Go source files in 7 labelled shape classes (G1 protoc-gen-go shape, G2 many structs with other declarations interleaved, G3 key override/add/both, G4 non-ASCII, G5 values with $ \\ % and regex text, G6 multi-name/embedded/multi-line anonymous struct//* */ comments/generics/irregular spacing, G7 one-line anonymous struct containing a tag literal), each processed by the library entry points and by the built CLI with -f, -d and -p; " +
+		Rule: "seeded generator of valid Go source files in 7 labelled shape classes (G1 protoc-gen-go shape, G2 many structs with other declarations interleaved, G3 key override/add/both, G4 non-ASCII, G5 values with $ \\ % and regex text, G6 multi-name/embedded/multi-line anonymous struct//* */ comments/generics/irregular spacing, G7 one-line anonymous struct containing a tag literal) plus real-world sources (protoc-gen-go output found in the module cache and standard-library files, annotated by the harness on fields of top-level struct declarations that have a conventional tag literal and no trailing comment: class RW; as they are: RW0), each processed by the library entry points and by the built CLI with -f, -d and -p; " +
 			"oracle: go/parser + hand-written tag scanner compute the expected merged key list per annotated field, every byte outside the annotated fields' tag literals must be unchanged, output must parse. distinct = distinct file content; non-trivial = file with >=1 annotated field",
 		Shards: func(t core.Tier) int { return 16 },
 		Run:    runC06,
@@ -153,6 +153,15 @@ func init() {
 					}
 				}
 			}
+			if r.Counters["real_world_corpus_files"] >= 100 {
+				rw := int64(0)
+				for _, m := range injModes {
+					rw += r.Counters["files|RW|"+m]
+				}
+				if rw < 30 {
+					r.Inconc(fmt.Sprintf("real-world corpus available but only %d annotated real-world files processed", rw))
+				}
+			}
 			if r.Counters["annotated_fields_after_offset_shift"] < 200 {
 				r.Inconc("too few annotated fields located after an earlier rewrite changed the file length")
 			}
@@ -160,7 +169,7 @@ func init() {
 	})
 	core.Register(&core.Prop{
 		ID:     "C07",
-		Rule:   "the C06 corpus (all shape classes) plus annotation-free files; run histories of length 2-5 whose steps are drawn from {library call, CLI -f, -d, -p}; the bytes after run n+1 must equal the bytes after run n (n>=1) and annotation-free files must never change. distinct = distinct file content; non-trivial = file modified by run 1 (idempotence is not vacuous)",
+		Rule:   "the C06 corpus (all shape classes and the real-world sources) plus annotation-free files; run histories of length 2-5 whose steps are drawn from {library call, CLI -f, -d, -p}; the bytes after run n+1 must equal the bytes after run n (n>=1) and annotation-free files must never change. distinct = distinct file content; non-trivial = file modified by run 1 (idempotence is not vacuous)",
 		Shards: func(t core.Tier) int { return 16 },
 		Run:    runC07,
 		Check: func(r *core.Result, t core.Tier) {
@@ -174,7 +183,7 @@ func init() {
 	})
 	core.Register(&core.Prop{
 		ID: "C19",
-		Rule: "directories of 2-12 entries mixing valid annotated files, unannotated files, faulty .go files (syntax error, truncated, empty, binary junk), parseable-but-awkward files (@tag on a field without tag literal, malformed @tag text, comments merely mentioning @tag, grouped/local/alias/generic types, interpreted-string and empty tag literals, @tag values containing a backquote), non-Go files containing annotated Go text, sub-directories and a directory named x.go, with faulty files sorting first/middle/last; processed by the CLI with -f, -d, -p. " +
+		Rule: "directories of 2-12 entries mixing valid annotated files, unannotated files, faulty .go files (syntax error, truncated, empty, binary junk), parseable-but-awkward files (@tag on a field without tag literal, malformed @tag text, comments merely mentioning @tag, grouped/local/alias/generic types, interpreted-string and empty tag literals, @tag values containing a backquote), non-Go files containing annotated Go text, sub-directories and a directory named x.go, real-world files (standard library incl. testdata that does not parse, protoc-gen-go output; pristine or annotated), with faulty files sorting first/middle/last; processed by the CLI with -f, -d, -p. " +
 			"oracle: exit status 0 and no panic text, unprocessable files byte-identical, every parseable .go file equals the C06 merge. distinct = distinct directory content hash; non-trivial = directory with >=1 faulty or awkward entry and >=1 processable annotated file",
 		Shards: func(t core.Tier) int { return 16 },
 		Parent: func(p *core.ParentCtx) *core.Result {
@@ -223,6 +232,33 @@ func c06Batch(c *core.Ctx, rng *rand.Rand, batch int, withFree bool) (dir string
 		names = append(names, name)
 		classes[name] = cl
 	}
+	// real-world sources: protoc-gen-go output from the module cache and standard-library files,
+	// annotated by the harness (class RW) or as they are (class RW0)
+	if pb, std := gen.RealCorpus(); len(pb)+len(std) > 0 && rng.Intn(2) == 0 {
+		for k := 0; k < 1+rng.Intn(2); k++ {
+			var path string
+			if len(pb) > 0 && (len(std) == 0 || rng.Intn(3) != 0) {
+				path = pb[rng.Intn(len(pb))]
+			} else {
+				path = std[rng.Intn(len(std))]
+			}
+			src := gen.ReadReal(path)
+			if src == nil {
+				continue
+			}
+			cl := "RW0"
+			if _, err := ref.AnalyzeGo(src); err != nil {
+				cl = "RWbad" // testdata that does not parse: must be left alone (C19)
+			} else if out, n := gen.AnnotateReal(rng, src); n > 0 && rng.Intn(5) != 0 {
+				src, cl = out, "RW"
+			}
+			name := fmt.Sprintf("r%02d_%s_%s", k, strings.ToLower(cl), filepath.Base(path))
+			os.WriteFile(filepath.Join(dir, name), src, 0o644)
+			names = append(names, name)
+			classes[name] = cl
+			c.Journal("real-world file %s as %s (%s)", path, name, cl)
+		}
+	}
 	before = readAll(dir, names)
 	return
 }
@@ -232,6 +268,12 @@ func runC06(c *core.Ctx) {
 	res.Assume("domain as stated: backquoted tag literals in conventional key:\"value\" form, values non-empty without double quote, one or more trailing comments on the field (items merged in order), keys \\w+, distinct keys per comment, top-level ungrouped type declarations")
 	res.Assume("go/parser is trusted; spacing inside a rewritten tag literal is not constrained")
 	rng := c.Rng("inject")
+	if pb, std := gen.RealCorpus(); c.Shard == 0 {
+		res.Count("real_world_corpus_files", int64(len(pb)+len(std)))
+		if len(pb)+len(std) < 100 {
+			res.Assume("no real-world corpus found (go env GOMODCACHE / GOROOT): generated sources only")
+		}
+	}
 	B := c.Pick(120, 2500)
 	for b := 0; b < B; b++ {
 		dir, names, classes, before := c06Batch(c, rng, b, false)
@@ -246,6 +288,12 @@ func runC06(c *core.Ctx) {
 			res.Eval()
 			cl := classes[n]
 			res.Count("files|" + cl + "|" + mode)
+			if cl == "RWbad" {
+				if !bytes.Equal(before[n], after[n]) {
+					res.Violate("C06|unparseable-file-changed|"+cl, fmt.Sprintf("%s changed a real-world file that does not parse: %s", mode, firstDiffLine(before[n], after[n])), injWitness{Mode: mode, Class: cl, File: n})
+				}
+				continue
+			}
 			probs, ann, shifted := ref.CheckInjection(before[n], after[n])
 			res.Count("annotated_fields", int64(ann))
 			res.Count("annotated_fields_after_offset_shift", int64(shifted))
@@ -425,7 +473,27 @@ func runC19(c *core.Ctx) {
 			prefix := string(rune('a' + rng.Intn(26)))
 			name := fmt.Sprintf("%s%02d", prefix, i)
 			e := c19Entry{}
+			pbFiles, stdFiles := gen.RealCorpus()
 			switch r := rng.Intn(20); {
+			case r < 3 && len(pbFiles)+len(stdFiles) > 0 && i%3 == 0:
+				// a real-world file as it is (standard library incl. its unparseable testdata, protoc-gen-go
+				// output), or annotated by the harness
+				var path string
+				if len(pbFiles) > 0 && (len(stdFiles) == 0 || rng.Intn(2) == 0) {
+					path = pbFiles[rng.Intn(len(pbFiles))]
+				} else {
+					path = stdFiles[rng.Intn(len(stdFiles))]
+				}
+				src := gen.ReadReal(path)
+				_, perr := ref.AnalyzeGo(src)
+				e = c19Entry{Name: name + "_" + filepath.Base(path), Kind: "real-world", Content: src, Parses: perr == nil}
+				if perr != nil {
+					e.Kind = "real-world|unparseable"
+				} else if out, k := gen.AnnotateReal(rng, src); k > 0 && rng.Intn(2) == 0 {
+					e.Content, e.Kind, e.Annotated = out, "processable", true
+					res.Count("real-world|annotated")
+				}
+				c.Journal("C19 real-world file %s as %s", path, e.Name)
 			case r < 6:
 				cl := gen.SrcClasses[rng.Intn(len(gen.SrcClasses))]
 				src, ann := gen.GenGoFile(rng, gen.SrcOpts{Class: cl})
